@@ -420,6 +420,7 @@ class DeltaModel(C06.Apply):
     """the delta boundary family through harness/cmd/c06 (all five appliers) and Model/Delta.v: impl = model ties the
     C53_delta_* theorems to the code on the copy/insert ranges that end at, one before and one past their buffers"""
     name = "deltamodel"
+    coq_imports = "From GoGit Require Import Model.Delta."
     quick_n = 0
     thorough_n = 0
 
@@ -443,6 +444,7 @@ class DeltaModel(C06.Apply):
 class TreeModel(C04.Main):
     """the tree boundary family through harness/cmd/c04 and Model/TreeObj.v (Tree.Decode)"""
     name = "treemodel"
+    coq_imports = "From GoGit Require Import Model.TreeObj."     # only files of the C53 closure (Spec/GitTree.v is not)
     quick_n = 0
     thorough_n = 0
 
